@@ -33,10 +33,16 @@ GROUPS = {
 # value cells: quick = the cells the property texts single out + numeric/error groups of the arithmetic core
 # measured alone on this image: un_minus 146 s, un_abs 135 s, un_to_int 130 s, rem_g0 114 s, div_g0 160 s, eq_g0 118 s, casts 110-138 s;
 # plus_g0 420 s, pow_g0 484 s, fact 248 s, if_g0 199 s are thorough-tier; mul_g0 does not finish in 900 s
-CELL_QUICK_UNARY = ["minus", "abs", "to_int"]
-CELL_QUICK_BIN = [("rem", 0), ("div", 0), ("lt", 0), ("eq", 0)]
-CELL_QUICK_EXTRA = ["c17_casts_i32_f32"]  # c16_bin_pow_int: 373 s alone, thorough tier
-C17_RULE_CELLS = ("c16_un_minus", "c16_un_abs", "c16_bin_rem", "c16_un_to_int", "c16_un_to_float", "c16_bin_pow", "c16_bin_div", "c16_un_fact", "c16_bin_shl", "c16_bin_shr")
+# direct kernels (c16_dir_*: the private operator functions of value.rs through verif_hooks::val, no table construction) cost
+# 2-75 s each (length 175 s): ALL of them are quick-tier. Table cells in the quick tier: the operators whose table entry is a
+# closure (no direct kernel): / and two comparisons; plus one cast harness. Every table cell is thorough-tier (wiring repr -> function).
+CELL_QUICK_SKIP = ["c16_dir_bin_mul_g0"]  # 244 s alone, does not finish in 900 s inside a 12-job batch: thorough tier
+CELL_QUICK_UNARY = []
+CELL_QUICK_BIN = [("div", 0), ("lt", 0), ("eq", 0)]
+CELL_QUICK_EXTRA = ["c17_casts_i32_f32"]
+C17_RULE_CELLS = ("c16_un_minus", "c16_un_abs", "c16_bin_rem", "c16_un_to_int", "c16_un_to_float", "c16_bin_pow", "c16_bin_div", "c16_un_fact", "c16_bin_shl", "c16_bin_shr",
+                  "c16_dir_un_minus", "c16_dir_un_abs", "c16_dir_bin_rem", "c16_dir_un_to_int", "c16_dir_un_to_float", "c16_dir_bin_pow", "c16_dir_un_fact", "c16_dir_bin_shl", "c16_dir_bin_shr",
+                  "c16_bin_mul", "c16_dir_bin_mul", "c16_bin_plus", "c16_dir_bin_plus", "c16_bin_minus", "c16_dir_bin_minus")
 
 
 def log(m):
@@ -81,14 +87,14 @@ def harness_list(groups, tier, cells):
             hs += q + (t if tier == "thorough" else [])
         elif g in ("c16", "c17", "c18"):
             names = cells["c16_unary"] + cells["c16_scalar"] + cells["c16_array"]
-            names = names + cells.get("c17_casts", [])
+            names = names + cells.get("c17_casts", []) + cells.get("c16_direct", [])
             if g == "c18":
                 # the functions the piecewise derivatives rest on: thorough tier only (engine S is the quick check of C18)
                 sel = [n for n in names if n in ("c16_bin_if_g0", "c16_bin_else_g0", "c16_bin_lt_g0", "c16_bin_eq_g0", "c16_un_to_float")] if tier == "thorough" else []
             elif tier == "thorough":
                 sel = names
             else:
-                sel = [n for n in names if any(n == f"c16_un_{u}" for u in CELL_QUICK_UNARY) or any(n == f"c16_bin_{b}_g{g2}" for b, g2 in CELL_QUICK_BIN) or n in CELL_QUICK_EXTRA]
+                sel = [n for n in names if (n in cells.get("c16_direct", []) and n not in CELL_QUICK_SKIP) or any(n == f"c16_un_{u}" for u in CELL_QUICK_UNARY) or any(n == f"c16_bin_{b}_g{g2}" for b, g2 in CELL_QUICK_BIN) or n in CELL_QUICK_EXTRA]
             hs += ["cells::" + n for n in sel]
         elif g == "c19":
             import glob
@@ -277,7 +283,7 @@ def run(pid, groups, tier, seed):
         res["stats"] = {"evaluations": 0, "distinct_nontrivial": 0, "obligations": 0, "discharged": 0}
         return res
     timeout_s = 600 if tier == "quick" else 1800
-    jobs = 8 if tier == "quick" else 6
+    jobs = (12 if len(hs) > 20 else 8) if tier == "quick" else 6
     # CBMC's extra float checks flag NaN / infinite RESULTS, which are legitimate here; Rust's own integer overflow assertions stay on
     extra = ["--no-overflow-checks"]
     cache_key = hashlib.sha256((source_hash() + tier + " ".join(hs)).encode()).hexdigest()[:16]
